@@ -205,11 +205,11 @@ def run(P, C, tier):
         need = {"room": False, "room-some": False, "name_for": False, "get_entity": False, "json": False, "node-some": False}
         entity_gate = False
         for pb in pushes_valid:
-            for s, vals, term in an.guards(pb, expand_vars=True):
+            for s, vals, term in an.implied_guards(pb, expand_vars=True):
                 atom, truth = mir.cond_atoms(term, vals)
                 dv = mir.discr_variants(term, vals)
                 if atom[0] == "call" and atom[1].endswith("::eq") and truth is True:
-                    ps = [field_path(x) for x in atom[2]]
+                    ps = [field_path(an.origin(x)) for x in atom[2]]
                     if len(ROOM) == 1 and any(p == ROOM[0] for p in ps) and any(p.endswith(".room_id") for p in ps if p != ROOM[0]):
                         need["room"] = True
                     if any("old_entity" in p for p in ps) and any(p.endswith("_entity") for p in ps):
@@ -302,18 +302,22 @@ def run(P, C, tier):
             C.ob("R4", label + ":checked", ok1, s["loc"], det)
             C.ob("R4", label + ":author", s["user"].endswith("node.verifying_key"), s["loc"], "decision for the row's own author: %s" % s["user"])
             C.ob("R4", label + ":date", s["date"].endswith("node.mdate"), s["loc"], "decision at the row's own date: %s" % s["date"])
-            C.ob("R4", label + ":right", s["right"] == "var:right" or s["right"] == "phi", s["loc"], "right chosen by the author comparison (required_right)")
+            C.ob("R4", label + ":right", rights.canonical_kinds(vn, [s]) == rights.WANT_KINDS, s["loc"], "right chosen by the author comparison: %s" % sorted(rights.canonical_kinds(vn, [s])))
             if s["room_ineq"]:
                 C.ob("R4", label + ":leaving-room", s["room_key"] is not None and "old" in s["room_key"], s["loc"], "leaving-room decision keyed by %s" % s["room_key"])
             else:
                 C.ob("R4", label + ":entering-room", s["room_key"] is not None and s["room_key"].endswith("node.room_id"), s["loc"], "entering-room decision keyed by %s" % s["room_key"])
         C.ob("R4", "validate_node:both-rooms", any(s["room_ineq"] for s in ss) and any(not s["room_ineq"] for s in ss), vn.loc(), "both the leaving and the entering room are consulted")
-        defs = rights.right_var_defs(vn, "required_right")
-        for r, eq, bi, paths in defs:
-            ok = (r == "MutateAll") == (eq is False)
-            C.ob("R4", "required_right:%s:%s" % (r, {True: "same", False: "different", None: "none"}[eq]), ok, vn.loc(bi),
-                 "required_right=%s when previous author comparison is %s (%s)" % (r, eq, paths))
-        C.ob("R4", "required_right:kinds", {r for r, _, _, _ in defs} == {"MutateSelf", "MutateAll"}, vn.loc(), "both kinds are selectable", nontrivial=False)
+        seen_cases = set()
+        for s in ss:
+            for r, eq, bi in rights.decision_cases(vn, s):
+                k_ = (r, {True: "same", False: "different", None: "none"}[eq])
+                if k_ in seen_cases:
+                    continue
+                seen_cases.add(k_)
+                ok = (r == "MutateAll") == (eq is False)
+                C.ob("R4", "required_right:%s:%s" % k_, ok, vn.loc(bi), "right %s when the previous author comparison is %s" % (r, eq))
+        C.ob("R4", "required_right:kinds", {r for r, _ in seen_cases} == {"MutateSelf", "MutateAll"}, vn.loc(), "both kinds are selectable", nontrivial=False)
         # size limit and missing room return false
         ra = mir.return_assignments(vn)
         C.ob("R4", "validate_node:true-exit-unique", len(ra["true"]) == 1, vn.loc(), "one accepting exit", nontrivial=False)
@@ -325,7 +329,8 @@ def run(P, C, tier):
             b = P.body(fn)
             C.saw(b)
             ss = rights.can_sites(P, b)
-            C.floor("R4", "can sites in " + fn.split("::")[-1], len(ss), 3)
+            C.floor("R4", "can sites in " + fn.split("::")[-1], len(ss), 1)
+            C.ob("R4", fn.split("::")[-1] + ":kinds", rights.canonical_kinds(b, ss) == rights.WANT_KINDS, b.loc(), "right kinds chosen for a deletion record: %s" % sorted(rights.canonical_kinds(b, ss)))
             for i, s in enumerate(ss):
                 label = "%s:can#%d" % (fn.split("::")[-1], i)
                 ok1, det = rights.check_refusal(b, s["block"])
